@@ -148,6 +148,23 @@ var verifDSLScalar = map[openfgav1.ConditionParamTypeRef_TypeName]string{
 // text is `name: type`; anything else is an error rather than text that the DSL
 // parser rejects or that reads back as another type.
 func VerifC02_ParamTypes() {
+	if k := zzverif.Choose("parameter-list", 3); k > 0 {
+		// a condition without any parameter (nil or empty map): the grammar demands at least one
+		// (`condition c() {` is rejected by the parser), so the conversion has to fail
+		c := &openfgav1.Condition{Name: "c", Expression: "true"}
+		if k == 2 {
+			c.Parameters = map[string]*openfgav1.ConditionParamTypeRef{}
+		}
+		m := &openfgav1.AuthorizationModel{SchemaVersion: "1.1", TypeDefinitions: []*openfgav1.TypeDefinition{{Type: "user"}}, Conditions: map[string]*openfgav1.Condition{"c": c}}
+		verifFreezeModel("model", m)
+		_, err := TransformJSONProtoToDSL(m)
+		zzverif.Class("parameter-type-succeeds-iff-expressible", "condition without parameters")
+		zzverif.Assert(err != nil, "parameter-type-succeeds-iff-expressible")
+		if err != nil {
+			zzverif.Reach("rejected")
+		}
+		return
+	}
 	all := []openfgav1.ConditionParamTypeRef_TypeName{0, 1, 2, 3, 4, 5, 6, 7, 8, 9, 10, 11, 12}
 	tn := all[zzverif.Choose("type-name", len(all))]
 	p := &openfgav1.ConditionParamTypeRef{TypeName: tn}
